@@ -123,6 +123,10 @@ impl<'a> encode::Write for ConsoleWriterLock<'a> {
 mod imp {
     use std::{fmt, io};
 
+    // terminal detection answered by the harness (foreign functions cannot be stubbed)
+    #[cfg(log4rs_verif)]
+    use crate::verif_hooks::fake_libc as libc;
+
     use crate::{
         encode::{
             self,
